@@ -227,10 +227,21 @@ def gen_document_case(rng):
         d.update(field=which, bad=cols, form=form)
         return {"cls": "RTFDocument", "doc": {"df": rng.choice([0, 1, 3, 3]), "body": body, "form": form}, "desc": d, "n": 2,
                 "expect": "ValueError"}
-    if r < 0.55:
+    if r < 0.53:
+        # multi-section: the name is missing from ONE section's frame only (any position); the sections use
+        # separate bodies, or one body object for all of them (rtf_body=[b, b, b])
+        nd = rng.randint(2, 4)
+        which = rng.choice(["group_by", "page_by", "subline_by"])
+        k = rng.choice([nd - 1, rng.randrange(nd)])
+        shared = rng.random() < 0.6
+        d.update(field=which, bad={"sections": nd, "missing_in": k, "shared_body": shared})
+        return {"cls": "RTFDocument", "doc": {"msec": {"n": nd, "k": k, "which": which, "shared": shared,
+                                                       "form": rng.choice(["list", "tuple", "str"])}},
+                "desc": d, "n": 2, "expect": "ValueError"}
+    if r < 0.58:
         d.update(field="df+figure")
         return {"cls": "RTFDocument", "doc": {"df": 2, "figure": True}, "desc": d, "n": 2, "expect": "ValueError"}
-    if r < 0.65:
+    if r < 0.66:
         d.update(field="neither df nor figure")
         return {"cls": "RTFDocument", "doc": {}, "desc": d, "n": 2, "expect": "ValueError"}
     if r < 0.85:
@@ -268,6 +279,16 @@ def construct(case, figpath):
             kw["rtf_body"] = rtf.RTFBody(**bkw)
         if dd.get("figure"):
             kw["rtf_figure"] = rtf.RTFFigure(figures=figpath)
+        if "msec" in dd:
+            m = dd["msec"]
+            kw["df"] = [df().drop("N1") if i == m["k"] else df() for i in range(m["n"])]
+            name = {"list": ["N1"], "tuple": ("N1",), "str": "N1"}[m["form"]]
+            if m["shared"]:
+                b = rtf.RTFBody(**{m["which"]: name})
+                kw["rtf_body"] = [b] * m["n"]
+            else:
+                kw["rtf_body"] = [rtf.RTFBody(**{m["which"]: name}) if i == m["k"] or i % 2 == 0 else rtf.RTFBody()
+                                  for i in range(m["n"])]
         if "dfs" in dd:
             kw["df"] = [df() for _ in range(dd["dfs"])]
             nb = dd["bodies"]
